@@ -1,7 +1,9 @@
 from core import Unit as U
 PS_OR = ["secp256k1_scalar_mul", "secp256k1_musig_keyaggcoef"]
 NG_OR = ["secp256k1_nonce_function_musig", "secp256k1_ecmult_gen", "secp256k1_ge_set_all_gej"]
-NG_ASSUMED = ["secp256k1_ecmult_gen", "secp256k1_ge_set_all_gej"]
+# nonce_function_musig: its stream and k = digest mod n are asserted on the real body by C12.nonce_function (harness style), its FRAME is not
+# enforced anywhere, so it is listed as assumed (audit #23)
+NG_ASSUMED = ["secp256k1_ecmult_gen", "secp256k1_ge_set_all_gej", "secp256k1_nonce_function_musig"]
 UNITS = [
     U("C13.psign_contract", ["C13"], "harness/C13/psign_contract.c", "h_psign_contract", enforce=["secp256k1_musig_partial_sign"],
       replace=PS_OR, assumed=PS_OR, functions=["secp256k1_musig_partial_sign"], timeout=600, min_obl=1158, replay=False,
